@@ -385,7 +385,7 @@ class BoundedHelperTask(Task):
         t0 = _t.time()
         out = {'results': [], 'functions': [], 'notes': [], 'bounded': []}
         r = repo()
-        info = r.func('utils.' + self.which)
+        info = r.func(('message.' if self.which == 'int_to_bytes' else 'utils.') + self.which)
         if info is not None:
             d = info.describe()
             d['checked'] = 'bounded differential against a reference (not a proof)'
@@ -405,7 +405,7 @@ class BoundedHelperTask(Task):
                                    'reason': str(fail)[:300], 'replay': {'confirmed': True, 'inputs': fail, 'how': f'nmea2000.utils.{self.which} on the working tree against the reference in contracts/helpers_c.py'}})
         else:
             out['results'].append({'obligation': ob, 'kind': 'bounded', 'status': 'discharged', 'backend': 'native-contract (bounded, not a proof)', 'seconds': round(_t.time() - t0, 3)})
-        out['bounded'].append({'function': f'nmea2000.utils.{self.which}', 'kind': 'bounded differential against a reference', 'bound': bound, 'cases': n, 'label': 'bounded'})
+        out['bounded'].append({'function': f'nmea2000.{"message" if self.which == "int_to_bytes" else "utils"}.{self.which}', 'kind': 'bounded differential against a reference', 'bound': bound, 'cases': n, 'label': 'bounded'})
         return out
 
     @staticmethod
@@ -474,6 +474,20 @@ class BoundedHelperTask(Task):
                             return {'field_bytes': pkt.hex(), 'bit_offset': off, 'observed': repr(got), 'expected': repr(want)}, n, ''
         return None, n, 'length/encoding headers in front of the string corpus (UTF-8 and UTF-16 readings); offsets 0, 8'
 
+    def b_int_to_bytes(self, rnd, big):
+        """message.int_to_bytes (value of BINARY fields): big-endian bytes, one more than needed when the bit length is a
+        multiple of 8, at least one byte."""
+        f = resolve_real('message.int_to_bytes')
+        n = 0
+        vals = list(range(0, 70000 if big else 5000)) + [1 << k for k in range(0, 300, 7)] + [(1 << k) - 1 for k in range(1, 300, 5)] + [rnd.getrandbits(rnd.choice([8, 16, 64, 200])) for _ in range(3000)]
+        for v in vals:
+            n += 1
+            want = v.to_bytes(max(1, v.bit_length() // 8 + 1), 'big')
+            got = f(v)
+            if got != want or not isinstance(got, bytes):
+                return {'value': v, 'observed': repr(got), 'expected': repr(want)}, n, ''
+        return None, n, 'all values below 5000 (70000 thorough), powers of two and all-ones up to 300 bits, 3000 random values'
+
     def b_decode_bit_lookup(self, rnd, big):
         f = resolve_real('utils.decode_bit_lookup')
         table = {0: 'zero', 1: 'one', 2: 'two', 4: 'four', 7: 'seven', 15: 'fifteen', 31: 'thirty-one'}
@@ -518,7 +532,7 @@ def decode_helper_tasks(prop):
                              check_decode_float(off, L), replay_float))
     for nb in (1, 2):
         ts.append(HelperTask(prop, 'utils.decode_decimal', f'bytes={nb}', lambda ex, nb=nb: [ex.fresh('number_int', lo=0, hi=(1 << (8 * nb)) - 1)], check_decode_decimal(nb)))
-    for which in ('decode_string_fix', 'decode_string_lz', 'decode_string_lau', 'decode_bit_lookup'):
+    for which in ('decode_string_fix', 'decode_string_lz', 'decode_string_lau', 'decode_bit_lookup', 'int_to_bytes'):
         ts.append(BoundedHelperTask(prop, which))
     return ts
 
